@@ -258,6 +258,9 @@ def conditions(tier):
     return cs
 
 
+# validate() compares the real implementation with the property itself
+VALIDATION_CHECKS_PROPERTY = True
+
 ASSUMPTIONS = [
     'Manifest serialisation replaced by entry snapshots in the model runs (the order is '
     'produced by the entries\' own __lt__); the real dump is decided by k_dump_sorted',
